@@ -134,6 +134,126 @@ def run_http(case, part):
     judge_exception('http', o.get('error_obj'), part, case, {'kind': case['kind']})
 
 
+# ----------------------------------------------------------------------------------------------- transport faults
+FAULTS = ['reset', 'broken-pipe', 'aborted', 'timeout', 'ssl-error', 'ssl-cert-text', 'cert-error', 'oserror-noerrno', 'unreachable',
+          'connect-refused', 'connect-timeout', 'connect-ssl', 'connect-unreachable']
+
+
+def make_fault(name):
+    import errno
+    import ssl
+    if name == 'reset':
+        return ConnectionResetError(errno.ECONNRESET, 'Connection reset by peer')
+    if name == 'broken-pipe':
+        return BrokenPipeError(errno.EPIPE, 'Broken pipe')
+    if name == 'aborted':
+        return ConnectionAbortedError(errno.ECONNABORTED, 'aborted')
+    if name in ('timeout', 'connect-timeout'):
+        return TimeoutError(errno.ETIMEDOUT, 'timed out')
+    if name in ('ssl-error', 'connect-ssl'):
+        return ssl.SSLError(1, '[SSL: WRONG_VERSION_NUMBER] wrong version number')
+    if name == 'ssl-cert-text':
+        return ssl.SSLError(1, '[SSL: CERTIFICATE_VERIFY_FAILED] certificate verify failed')
+    if name == 'cert-error':
+        return ssl.CertificateError("hostname 'x' doesn't match 'y'")
+    if name == 'oserror-noerrno':
+        return OSError('transport closed')
+    if name in ('unreachable', 'connect-unreachable'):
+        return OSError(errno.EHOSTUNREACH, 'No route to host')
+    if name == 'connect-refused':
+        return ConnectionRefusedError(errno.ECONNREFUSED, 'refused')
+    raise AssertionError(name)
+
+
+def inject_case(rng):
+    r = httpgen.gen_response(rng, allow=['length', 'chunked', 'close', 'te+cl', 'length0'])
+    return {'entry': 'inject', 'wire': r['wire'], 'method': r['method'], 'fault': rng.choice(FAULTS),
+            'seg_seed': rng.randrange(1 << 30), 'protocol': rng.choice(['http', 'http', 'ftp'])}
+
+
+def run_inject(case, part):
+    rng = random.Random(case['seg_seed'])
+    exc = make_fault(case['fault'])
+    if case['protocol'] == 'ftp':
+        from checks import c17_ftp
+        script = ftpsim.FTPScript()
+        holder = {}
+        orig_segment = script.segment
+        # fail the control connection at a random reply
+        target = rng.choice(['welcome', 'USER', 'PASS', 'SIZE', 'TYPE', 'PASV', 'RETR'])
+        res = run_ftp_with_fault(script, target, exc, connect=case['fault'].startswith('connect'))
+        if res.get('error') == 'STALL':
+            part.count('inject_stall')
+            return
+        judge_exception('inject', res.get('error_obj'), part, case, {'fault': case['fault'], 'protocol': 'ftp', 'at': target})
+        return
+    from harness import httpdrive
+    pieces = random_pieces(rng, case['wire'])
+    if len(pieces) < 2:
+        pieces = [case['wire'][:len(case['wire']) // 2], case['wire'][len(case['wire']) // 2:]]
+    resp = {'pieces': pieces, 'then': 'keep', 'method': case['method']}
+    if case['fault'].startswith('connect'):
+        outcomes, peer, net = run_http_connect_fault([resp], exc)
+    else:
+        resp['fault'] = {'at': rng.randrange(0, len(pieces)), 'exc': exc}
+        outcomes, peer, net = httpdrive.run_sequence([resp])
+    o = outcomes[0]
+    if o['error'] == 'STALL':
+        part.count('inject_stall')
+        return
+    judge_exception('inject', o.get('error_obj'), part, case, {'fault': case['fault'], 'protocol': 'http'})
+
+
+def run_http_connect_fault(responses, exc):
+    from harness import httpdrive
+    orig_install = netsim.Net.install
+
+    def install(self):
+        self.connect_failures.append(exc)
+        return orig_install(self)
+    netsim.Net.install = install
+    try:
+        return httpdrive.run_sequence(responses)
+    finally:
+        netsim.Net.install = orig_install
+
+
+def run_ftp_with_fault(script, target, exc, connect=False):
+    from checks import c17_ftp
+    orig_handle = ftpsim.ControlPeer._handle
+    orig_made = ftpsim.ControlPeer.connection_made
+    orig_install = netsim.Net.install
+
+    def handle(self, conn, line):
+        name = line.split(b' ', 1)[0].strip().upper().decode('latin-1')
+        if name == target:
+            conn.reset(exc)
+            return
+        return orig_handle(self, conn, line)
+
+    def made(self, conn):
+        if target == 'welcome':
+            self._buf[conn.id] = bytearray()
+            self.conns.append(conn)
+            conn.reset(exc)
+            return
+        return orig_made(self, conn)
+
+    def install(self):
+        if connect:
+            self.connect_failures.append(exc)
+        return orig_install(self)
+    ftpsim.ControlPeer._handle = handle
+    ftpsim.ControlPeer.connection_made = made
+    netsim.Net.install = install
+    try:
+        return c17_ftp.run_session('ftp://f.test/dir/file.bin', script)
+    finally:
+        ftpsim.ControlPeer._handle = orig_handle
+        ftpsim.ControlPeer.connection_made = orig_made
+        netsim.Net.install = orig_install
+
+
 # ----------------------------------------------------------------------------------------------- web session
 def web_case(rng):
     loc = rng.choice([b'/next', b'http://h.test/next', b'http://[::bad', b'', b' ', b'\x00', b'http://h.test:99999/', b'//', b'http://',
@@ -534,8 +654,8 @@ def run_crawl_case(case, part):
         part.violation('crawl/rows-left-unfinished', {'rows': unfinished[:3]}, replay)
 
 
-RUNNERS = {'http': run_http, 'web': run_web, 'ftp': run_ftp, 'robots': run_robots, 'scrape': run_scrape, 'crawl': run_crawl_case}
-GENERATORS = {'http': http_case, 'web': web_case, 'ftp': ftp_case, 'robots': robots_case, 'scrape': scrape_case, 'crawl': crawl_case}
+RUNNERS = {'inject': run_inject, 'http': run_http, 'web': run_web, 'ftp': run_ftp, 'robots': run_robots, 'scrape': run_scrape, 'crawl': run_crawl_case}
+GENERATORS = {'inject': inject_case, 'http': http_case, 'web': web_case, 'ftp': ftp_case, 'robots': robots_case, 'scrape': scrape_case, 'crawl': crawl_case}
 
 
 def worker(job):
@@ -586,7 +706,7 @@ def main():
     else:
         mult = (60 if check.thorough else 2) * check.scale
         nj = check.jobs * (4 if check.thorough else 1)
-        plan = {'http': int(4000 * mult) // nj, 'web': int(1600 * mult) // nj, 'ftp': int(2400 * mult) // nj,
+        plan = {'inject': int(1600 * mult) // nj, 'http': int(4000 * mult) // nj, 'web': int(1600 * mult) // nj, 'ftp': int(2400 * mult) // nj,
                 'robots': int(800 * mult) // nj, 'scrape': int(4000 * mult) // nj, 'crawl': max(1, int(64 * mult) // nj)}
         jobs = [{'seed': check.seed * 1000003 + i, 'plan': plan} for i in range(nj)]
         res = par.run_jobs(target, jobs, check.jobs, timeout=7200 if check.thorough else 1200)
